@@ -210,10 +210,10 @@ static void exec_op(Task* t, OpRec& rec, bool preempt) {
 // ------------------------------------------------------------------------------------------------ checker
 enum Aspect { A_GATE, A_STATUS, A_ENABLE_RET, A_GETF, A_FEATBITS, A_BIRTHDAY_CREATE, A_BIRTHDAY_KEEP, A_KDF_KEYGEN, A_KEYBUF,
               A_KDF_CRYPT, A_CRYPT_STATE, A_ISENC, A_PHRASE, A_ENCLEN, A_STORE, A_LANG_OUT, A_SECRET_CREATE, A_RAND19, A_ISOLATION,
-              A_MEMSTATUS, A_PRODUCED, A_INPUT, A_GUARD, A_DEPS, A_LEDGER, A_FREENULL, A_W1, A_W2, A_CANON, A_LANGQ, A_STRAY, A_NASPECTS };
+              A_MEMSTATUS, A_PRODUCED, A_INPUT, A_GUARD, A_DEPS, A_DEPS_MEM, A_LEDGER, A_FREENULL, A_W1, A_W2, A_CANON, A_LANGQ, A_STRAY, A_NASPECTS };
 static const char* ASPECT_NAMES[A_NASPECTS] = {"feature-gate", "status", "enable-return", "get-feature", "feature-bits", "birthday-at-create", "birthday-preserved",
     "keygen-kdf-inputs", "key-buffer", "crypt-kdf-inputs", "crypt-result", "is-encrypted", "phrase", "encode-length", "serialisation", "lang-out", "secret-from-randbytes",
-    "randbytes-19", "seed-isolation", "memory-status", "seed-produced", "input-modified", "output-guard", "dependency-honoured", "ledger", "free-null", "wipe-at-free",
+    "randbytes-19", "seed-isolation", "memory-status", "seed-produced", "input-modified", "output-guard", "dependency-honoured", "allocator-dependency-honoured", "ledger", "free-null", "wipe-at-free",
     "stack-residue", "canonical-seed", "lang-query", "stray-seam-call"};
 
 static bool owns(const std::string& prop, int a, bool crypt_related) {
@@ -223,9 +223,9 @@ static bool owns(const std::string& prop, int a, bool crypt_related) {
     if (prop == "C11") return a == A_BIRTHDAY_CREATE || a == A_BIRTHDAY_KEEP;
     if (prop == "C12") return a == A_KDF_CRYPT || a == A_CRYPT_STATE || a == A_ISENC ||
                               (crypt_related && (a == A_STATUS || a == A_GATE || a == A_STORE || a == A_PHRASE || a == A_CANON || a == A_FEATBITS || a == A_BIRTHDAY_KEEP || a == A_KDF_KEYGEN));
-    if (prop == "C15") return a == A_LEDGER || a == A_MEMSTATUS || a == A_PRODUCED || a == A_FREENULL;
+    if (prop == "C15") return a == A_LEDGER || a == A_MEMSTATUS || a == A_PRODUCED || a == A_FREENULL || a == A_DEPS_MEM;
     if (prop == "C16") return a == A_W1 || a == A_W2;
-    if (prop == "C18") return a == A_DEPS || a == A_RAND19 || a == A_SECRET_CREATE || a == A_BIRTHDAY_CREATE;
+    if (prop == "C18") return a == A_DEPS || a == A_DEPS_MEM || a == A_RAND19 || a == A_SECRET_CREATE || a == A_BIRTHDAY_CREATE;
     return false;
 }
 
@@ -264,9 +264,14 @@ struct Checker {
         polyseed_data* p = (polyseed_data*)t->slots[rec.op.slot & 7];
         if (rec.op.kind == OP_ENABLE) mask = (unsigned)rec.op.a & 7;
         if (!p) { seeds.erase(key); return; }
-        u8 st32[32]; polyseed_store(p, st32);
-        AbsSeed got;
-        if (model::parse(st32, got) == ST_OK) seeds[key] = got; else seeds.erase(key);
+        // If the model knows which abstract seed this object should be (the history determines it), it keeps that: later
+        // operations are then judged against the seed the history really leads to. Only without a prediction is the
+        // library's own view adopted.
+        if (!seeds.count(key)) {
+            u8 st32[32]; polyseed_store(p, st32);
+            AbsSeed got;
+            if (model::parse(st32, got) == ST_OK) seeds[key] = got;
+        }
         if (is_ctor(rec.op.kind) && rec.status == ST_OK && rec.produced) {
             std::vector<int> mine; for (auto& b : E.blocks) if (b.op == rec.idx && b.live) mine.push_back(b.id);
             seedblocks[key] = mine;
@@ -372,7 +377,8 @@ struct Checker {
             if (e.stale) {
                 std::string why = e.gen < 0 ? "libc was used although the corresponding dependency is injected" :
                     (e.gen != E.cur_gen ? strf("a function of injection generation %d was called, the current one is %d", e.gen, E.cur_gen) : "an optional dependency that was NULL at the latest injection was called (stale pointer)");
-                fail(A_DEPS, rec.idx, why + ": " + e.str()); if (v.found) return; soft = true; continue;
+                bool mem = e.kind == EV_ALLOC || e.kind == EV_FREE || e.kind == EV_LIBC_MALLOC || e.kind == EV_LIBC_FREE;
+                fail(mem ? A_DEPS_MEM : A_DEPS, rec.idx, why + ": " + e.str()); if (v.found) return; soft = true; continue;
             }
             if (e.kind == EV_FORBIDDEN) { fail(A_DEPS, rec.idx, "the library consulted " + e.name + "()"); if (v.found) return; soft = true; }
         }
@@ -872,7 +878,11 @@ static RunResult run_preempt(const Plan& p, const RunOpts& o) {
     for (int k = 0; k < nt && !r.v.found; ++k) {
         auto a = transcript(conc[k]), b = transcript(solo[k]);
         for (size_t j = 0; j < a.size(); ++j) if (a[j] != b[j]) {
-            if (p.prop == "C04" && conc[k].recs[j].op.kind != OP_KEYGEN) continue;     // C04 owns what reaches the KDF during key derivation
+            int kd = conc[k].recs[j].op.kind;
+            if (p.prop == "C04" && kd != OP_KEYGEN) continue;     // C04 owns what reaches the KDF during key derivation
+            if (p.prop == "C10" && kd != OP_GETF && kd != OP_ISENC && kd != OP_ENABLE && !(is_ctor(kd) && (conc[k].recs[j].status == ST_UNSUPPORTED) != (solo[k].recs[j].status == ST_UNSUPPORTED))) continue;
+            if (p.prop == "C11" && kd != OP_GETB) continue;
+            if (p.prop == "C12" && kd != OP_CRYPT && kd != OP_ISENC && kd != OP_STORE) continue;
             r.v.found = true; r.v.prop = p.prop; r.v.oracle = "S"; r.v.cls = "serial-equivalence"; r.v.op = conc[k].recs[j].idx;
             r.v.msg = strf("task %d observed under this interleaving: %s ;; alone it observes: %s", k, a[j].c_str(), b[j].c_str());
             break;
